@@ -169,6 +169,12 @@ func NegotiatePack(
 			return nil, ErrShallowNotSupported
 		}
 		upreq.Depth = packp.DepthRequest{Deepen: req.Depth}
+	}
+
+	// A shallow repository tells the server where its history ends on every
+	// fetch, not only when deepening: otherwise the server assumes that
+	// everything below a "have" is present and leaves it out of the pack.
+	if caps.Supports(capability.Shallow) {
 		upreq.Shallows, err = st.Shallow()
 		if err != nil {
 			return nil, err
